@@ -480,6 +480,24 @@ func genBufScenario(rng *rand.Rand, profile string, mode string) *BScenario {
 			Setup:   []BOp{{K: "newc", C: 1}},
 			Drivers: [][]BOp{{{K: "burst", C: 1, N: n, GapUs: gap}}}}
 	}
+	if profile == "bulk" {
+		// C01 with a large population (free-running only): one batch of well over a thousand values, a consumer that
+		// commits almost all of it at once (one large shift), then the tail is read by it and by a consumer created
+		// after the shift, and Slice() is compared
+		n := 1100 + rng.Intn(500)
+		tail := 1 + rng.Intn(12)
+		ops := []BOp{}
+		for i := 0; i < n-tail; i++ {
+			ops = append(ops, BOp{K: "get", C: 1})
+		}
+		ops = append(ops, BOp{K: "commit", C: 1}, BOp{K: "nop", N: 2}, BOp{K: "size"}, BOp{K: "slice"}, BOp{K: "newc", C: 2})
+		for i := 0; i < tail; i++ {
+			ops = append(ops, BOp{K: "get", C: 1}, BOp{K: "get", C: 2})
+		}
+		ops = append(ops, BOp{K: "commit", C: 1}, BOp{K: "commit", C: 2}, BOp{K: "put", N: 3}, BOp{K: "get", C: 1}, BOp{K: "get", C: 2}, BOp{K: "slice"})
+		return &BScenario{Profile: profile, NCtx: 1, Cleaner: BCleaner{Kind: "default", CooldownUs: []int{0, 300}[rng.Intn(2)]},
+			Setup: []BOp{{K: "newc", C: 1}, {K: "put", N: n}}, Drivers: [][]BOp{ops}}
+	}
 	sc := &BScenario{Profile: profile}
 	small := mode == "c"
 	nd := 2 + rng.Intn(2)
@@ -548,6 +566,23 @@ func genBufScenario(rng *rand.Rand, profile string, mode string) *BScenario {
 			r -= e.w
 		}
 		return "put"
+	}
+	// property-driven shape for C01: Puts whose context is cancelled while they are on their way (after the context check,
+	// queued on the buffer's lock, inside): a Put either fails and appends nothing, or appends and succeeds
+	if profile == "fifo" && rng.Intn(100) < 25 {
+		sc.Drivers, sc.NCtx = nil, 2
+		sc.Setup = []BOp{{K: "newc", C: 1}}
+		np := 2 + rng.Intn(2)
+		for d := 0; d < np; d++ {
+			sc.Drivers = append(sc.Drivers, []BOp{{K: "nop", N: rng.Intn(6)}, {K: "put", N: 1 + rng.Intn(2), Ctx: 1}, {K: "put", N: 1, Ctx: rng.Intn(2)}})
+		}
+		sc.Drivers = append(sc.Drivers, []BOp{{K: "nop", N: rng.Intn(12)}, {K: "cancel", Ctx: 1}})
+		var reads []BOp
+		for i := 0; i < 2*np+2; i++ {
+			reads = append(reads, BOp{K: "get", C: 1, Ctx: 2})
+		}
+		sc.Drivers = append(sc.Drivers, append(reads, BOp{K: "slice"}))
+		return sc
 	}
 	// property-driven shapes for reclamation (C04): the last state change is a commit while other consumers are
 	// parked in Get, or the close of the slowest consumer while others stay open
